@@ -219,8 +219,44 @@ def run_db_rows(ck, d, forms, stats):
             ck.violation("C13/signature-record-without-origin/%s/%d" % (nm, k), "signature record #%d of %r admits no database row of %r (operand kinds, implicit flags, a shared mode): "
                          "a record that widens what validate() accepts beyond the database" % (k, nm, nm), {"instruction": nm, "record": k})
     stats["signature_records_without_db_origin_known"] = len([o for o in orphans if (o[0], str(o[1])) in vend_orph])
+    # decorations the database grants vs the InstFlags / Avx512Flags of the instruction
+    dec = c13_forms.db_decorations(forms, n2i)
+    vend_dec = set(tuple(l.split()) for l in read_corpus_lines("db_decorations_x86.txt"))
+    vend_dec_absent = set(tuple(l.split()) for l in read_corpus_lines("db_decorations_absent_x86.txt"))
+    dec_present, dec_absent = [], []
+    for i in sorted(dec):
+        for dc in sorted(dec[i]):
+            (dec_present if c13_forms.decoration_has(d, i, dc) else dec_absent).append((names[i], dc))
+    for nm, dc in vend_dec:
+        if nm in n2i and not c13_forms.decoration_has(d, n2i[nm], dc):
+            ck.violation("C13/decoration-flag-missing/%s/%s" % (nm, dc), "the database grants %r the decoration %r and the reference tables had the flag validate() demands for it; "
+                         "the current tables do not (InstFlags / Avx512Flags of the instruction)" % (nm, dc), {"instruction": nm, "decoration": dc})
+    for nm, dc in dec_absent:
+        if (nm, dc) not in vend_dec_absent and (nm, dc) not in vend_dec:
+            ck.violation("C13/decoration-flag-absent/%s/%s" % (nm, dc), "the database grants %r the decoration %r but the tables lack the flag validate() demands for it "
+                         "(not on corpus/C13/db_decorations_absent_x86.txt)" % (nm, dc), {"instruction": nm, "decoration": dc})
+    stats.update({"db_decorations": len(dec_present) + len(dec_absent), "db_decorations_present": len(dec_present),
+                  "db_decorations_absent_known": len([x for x in dec_absent if x in vend_dec_absent])})
     if os.environ.get("C13_VENDOR") == "1":
         os.makedirs(CORPUS, exist_ok=True)
+        open(os.path.join(CORPUS, "db_decorations_x86.txt"), "w").write(
+            "# C13: <mnemonic> <decoration the database grants and whose flag the reference tables carry>\n" + "".join("%s %s\n" % x for x in dec_present))
+        open(os.path.join(CORPUS, "db_decorations_absent_x86.txt"), "w").write(
+            "# C13: <mnemonic> <decoration the database grants but whose flag the tables lack>: known (AVX10.2 forms of VEX instructions)\n" + "".join("%s %s\n" % x for x in dec_absent))
+    # converse, bit level: record operand kinds that no admitted database row names
+    kinds = [(names[i], k, q, b) for i, k, q, b in c13_forms.kinds_without_origin(d, [r for r in rows if fmt(r) in present])]
+    vend_kinds = set(tuple(l.split()) for l in read_corpus_lines("kinds_without_origin_x86.txt"))
+    for nm, k, q, b in kinds:
+        if (nm, str(k), str(q), str(b)) not in vend_kinds:
+            ck.violation("C13/signature-kind-without-origin/%s/%d/%d/%#x" % (nm, k, q, b), "operand %d of signature record #%d of %r accepts operand kind %#x (InstDB::OpFlags) that no database row "
+                         "of %r admitted by this record names: the record was widened beyond the database" % (q, k, nm, b, nm), {"instruction": nm, "record": k, "operand": q, "kind_bit": b})
+    stats["signature_kind_bits_without_db_origin_known"] = len([x for x in kinds if (x[0], str(x[1]), str(x[2]), str(x[3])) in vend_kinds])
+    if os.environ.get("C13_VENDOR") == "1":
+        os.makedirs(CORPUS, exist_ok=True)
+        with open(os.path.join(CORPUS, "kinds_without_origin_x86.txt"), "w") as f:
+            f.write("# C13: <mnemonic> <record index> <operand index> <OpFlags kind bit> of record operand kinds that no admitted database row names: known.\n")
+            for x in kinds:
+                f.write("%s %d %d %d\n" % x)
         with open(os.path.join(CORPUS, "records_without_origin_x86.txt"), "w") as f:
             f.write("# C13: signature records (<mnemonic> <index within the instruction's records>) that admit no database row of their instruction: known.\n")
             for nm, k in orphans:
@@ -596,6 +632,98 @@ def source_drift(ck):
     return txt
 
 
+# ------------------------------------------------------------------ emitter-level hook across CodeHolder switches
+HISTORIES = [[0, 1], [1, 0], [0, 0, 1], [1, 0, 1], [0, 1, 0], [1, 1, 0], [0, 1, 1], [1, 0, 0], [0, 1, 0, 1]]
+
+
+def run_history_stream(ck, impl, model, rng, stats):
+    """ONE x86::Assembler / x86::Builder object is attached to a sequence of 32-/64-bit CodeHolders (detach or holder reset in between) and emits
+    a vendored database form in the last one with validation on. Expected (C13_emitter_history_irrelevant): exactly the answer of a fresh emitter in
+    that mode (the E command of the same form: implementation-vs-implementation), and the validator verdict of the model for that mode."""
+    forms = sorted(read_corpus("implemented_x86.txt")) + sorted(read_corpus("excluded_x86.txt"))
+    if not forms:
+        return
+    n = 1500 if ck.tier == "quick" else 20000
+    picks = [rng.choice(forms) for _ in range(n)]
+    cmds, meta = [], []
+    for c in picks:
+        t = c.split()
+        mode = int(t[1]) & 1
+        cmds.append(c); meta.append(("E", None))
+        hs = [h for h in HISTORIES if h[-1] == mode]
+        for h in rng.sample(hs, 2):
+            for kind in "AB":
+                style = rng.randrange(2)
+                cmds.append("H %s %d %d %s %s" % (kind, style, len(h), " ".join(map(str, h)), " ".join(t[2:])))
+                meta.append((kind, (h, style, len(cmds) - 1)))
+    ri = run_sharded(impl, cmds)
+    mcmds = [c if c.startswith("E ") else "V %s %s" % (c.split()[3 + int(c.split()[3])], " ".join(c.split()[4 + int(c.split()[3]):])) for c in cmds]
+    rm = run_sharded(model, mcmds)
+    if isinstance(ri, tuple) or isinstance(rm, tuple):
+        bad = ri if isinstance(ri, tuple) else rm
+        ck.violation("C13/harness-crash", "harness or model driver failed on the history stream: %s" % (bad,), {"commands": cmds[:3], "detail": str(bad)}, no_input=True)
+        return
+    cur = None
+    checked = 0
+    for c, x, y, (kind, info) in zip(cmds, ri, rm, meta):
+        a = x.split()
+        if kind == "E":
+            cur = a
+            continue
+        checked += 1
+        h, style, _ = info
+        if len(a) != 4 or len(cur) != 9:
+            ck.violation("C13/harness-protocol", "history command %r answered %r" % (c, x), {"command": c, "detail": x}, no_input=True)
+            continue
+        he, hf, hb = int(a[1]), int(a[2]), a[3]
+        mverr = int(y.split()[1])
+        if kind == "A":
+            want = (int(cur[4]), 0, cur[5] if int(cur[4]) == 0 else "-")
+        else:
+            want = (int(cur[6]), int(cur[7]), cur[8] if int(cur[6]) == 0 else "-")
+        ok = (he, hf) == want[:2] and (he != 0 or hf != 0 or hb == want[2])
+        if mverr != 0 and he != mverr:
+            ok = False
+        if not ok:
+            name = c.split()[4 + len(h)]
+            ck.violation("C13/emitter-history/%s/%s" % (kind, ">".join(map(str, h))), "one x86::%s attached to CodeHolders of modes %s (%s between) and emitting %r with validation on answers "
+                         "(%d,%d,%s); a fresh emitter in mode %d answers %s; the validator model for that mode says %d - the hook must use the validator of the holder attached NOW"
+                         % ("Assembler" if kind == "A" else "Builder", h, "detach" if style == 0 else "holder reset", " ".join(c.split()[4 + len(h):]), he, hf, hb, h[-1], want, mverr),
+                         {"command": c, "impl": x, "fresh": " ".join(cur), "inst": name})
+    stats["emitter_history_cmds"] = checked
+
+
+# ------------------------------------------------------------------ own regeneration path: only this property's gen files, compiled in parallel
+def own_regen(ck, files, timeout=600):
+    """like vlib.Check.coq_regen but copies / recompiles ONLY the files of this property (dependency layers in parallel)"""
+    import shutil
+    gen = os.path.join(vlib.COQ, "gen")
+    if all(os.path.exists(os.path.join(gen, n)) and open(os.path.join(gen, n)).read() == t for n, t in files.items()):
+        return None
+    wgen = os.path.join(ck.work, "gen")
+    shutil.rmtree(wgen, ignore_errors=True)
+    os.makedirs(wgen)
+    for n, t in files.items():
+        open(os.path.join(wgen, n), "w").write(t)
+    args = ["-Q", os.path.join(vlib.COQ, "theories"), "Verif", "-Q", wgen, "VerifGen", "-w", "-all"]
+    ck.coq_make(["theories/X86Validate/ValidateProofs.vo", "theories/InstNames/NameProofs.vo"])
+    layers = [[n for n in files if n in ("X86Names.v", "A64Names.v", "X86Sigs.v")],
+              [n for n in files if n not in ("X86Names.v", "A64Names.v", "X86Sigs.v", "X86Forms.v")],
+              [n for n in files if n == "X86Forms.v"]]
+    failed, log = [], ""
+
+    def one(n):
+        rc, out, err = vlib.sh(["coqc"] + args + [os.path.join(wgen, n)], cwd=wgen, timeout=timeout)
+        return n, rc, (out + err)[-3000:]
+    for layer in layers:
+        with ThreadPoolExecutor(max_workers=12) as ex:
+            for n, rc, txt in ex.map(one, layer):
+                if rc != 0:
+                    failed.append(n)
+                    log += txt
+    return wgen, failed, log
+
+
 # ------------------------------------------------------------------ main
 def run(ck):
     rng = random.Random(ck.seed)
@@ -610,12 +738,11 @@ def run(ck):
     d = c13_gen.parse_dump(dump_txt)
     gen_files = c13_gen.gen_files(d)
     gen_dir = None
-    r = ck.coq_regen(gen_files, timeout=900)
+    r = own_regen(ck, gen_files)
     regen_failed = []
     if r is not None:
         gen_dir, regen_failed, regen_log = r
-        # coq_regen recompiles every file of coq/gen; only this property's files are judged here
-        regen_failed = [n for n in regen_failed if n in gen_files]
+
         ck.log("tables differ from the committed snapshot: regenerated coq/gen in %s, failed: %s" % (gen_dir, regen_failed))
     else:
         ck.log("tables identical to the committed snapshot (coq/gen)")
@@ -653,6 +780,7 @@ def run(ck):
         judge_names(ck, d, cmds, ri, rm, stats)
     form_samples = run_forms(ck, d, impl, model, rng, stats) or []
     form_samples += run_validator_stream(ck, d, impl, model, rng, stats)
+    run_history_stream(ck, impl, model, rng, stats)
 
     # proofs
     for n in regen_failed:
@@ -668,7 +796,9 @@ def run(ck):
                      {"broken": "coq/gen/" + n, "unsorted_letters_a64": c13_gen.a64_unsorted_letters(d)}, no_input=True)
     # a gen file whose reflection lemmas fail has no .vo, so Properties_C13.v as a whole cannot be compiled: attribute the failure to the
     # theorems that rest on that file (the others are listed in the evidence as not re-checkable in this run)
-    THEOREM_GEN = {"X86DbRows.v": ["C13_signature_rows_present", "C13_db_row_signature_stage", "C13_signature_records_have_db_origin"],
+    THEOREM_GEN = {  # (C13_emitter_history_irrelevant, C13_validate_pure, ... rest on no gen file)
+                   "X86DbRows.v": ["C13_signature_rows_present", "C13_db_row_signature_stage", "C13_signature_records_have_db_origin",
+                                   "C13_signature_kinds_have_db_origin", "C13_db_decorations_present", "C13_db_row_validates", "C13_db_row_validates_plain"],
                    "X86Forms.v": ["C13_db_forms_validate", "C13_db_excluded_forms_refused", "C13_validate_operand_count_refuted"],
                    "X86Sigs.v": ["C13_validator_tables_wf", "C13_signature_rows_present", "C13_db_row_signature_stage", "C13_validate_refuses_gpq_in_32bit", "C13_db_forms_validate", "C13_db_excluded_forms_refused", "C13_validate_operand_count_refuted"],
                    "X86Names.v": ["C13_find_correct", "C13_name_tables_in_bounds", "C13_name_roundtrip_x86", "C13_alias_roundtrip_x86",
@@ -695,7 +825,7 @@ def run(ck):
         samples = [{"cmd": c, "impl": x, "model": y} for c, x, y in z[:2] + z[len(z) // 2: len(z) // 2 + 2] + z[-2:]]
     return ck.finish(
         "proof",
-        {"evaluations": stats["names_cmds"] + stats.get("form_cmds", 0) + stats.get("validator_stream_cmds", 0),
+        {"evaluations": stats["names_cmds"] + stats.get("form_cmds", 0) + stats.get("validator_stream_cmds", 0) + stats.get("emitter_history_cmds", 0),
          "distinct_nontrivial": stats["roundtrips"] + stats["lookups_hit"] + stats.get("db_implemented", 0) + stats.get("mut_both_accept", 0) + stats.get("validator_stream_accepted", 0),
          "rule": "NI: every instruction id of x86 and AArch64 (+ undefined ids); NS: every name and alias, one-edit neighbours, case/NUL/length variants, random "
                  "strings from VERIF_SEED; non-trivial = round trips of defined ids + lookups of strings that are names (counted)",
